@@ -185,6 +185,13 @@ def gen_class(rnd, name, classes, max_depth, wrapper=False, exact=False):
     elif r < 0.4:
         ks = rnd.sample(names, rnd.randint(1, len(names)))
         c["mapper"] = {k: k.upper() + "_x" for k in ks}
+        if len(ks) >= 2 and rnd.random() < 0.35:
+            # renames onto the NAMES of siblings: a cycle (a permutation of the chosen names) or a chain whose last
+            # element gets a fresh name -- the output keys stay distinct
+            if rnd.random() < 0.5:
+                c["mapper"] = {k: ks[(i + 1) % len(ks)] for i, k in enumerate(ks)}
+            else:
+                c["mapper"] = {k: (ks[i + 1] if i + 1 < len(ks) else k.upper() + "_x") for i, k in enumerate(ks)}
     return c
 
 
@@ -1070,6 +1077,17 @@ def rep_oneof(doc, ctx):
     walk_schemas(doc, fn)
 
 
+def rep_allof(doc, ctx):
+    """AllOf is exported as allOf over the options' schemas, but the serializer erases the Python type: a member of an
+    enum class with a mixed-in primitive type satisfies Enum[...] AND Float in Python, its serialization (the name)
+    only the enum branch."""
+    def fn(s):
+        if "allOf" in s and "anyOf" not in s:
+            s["anyOf"] = s.pop("allOf")
+            ctx["changed"] = True
+    walk_schemas(doc, fn)
+
+
 def rep_excl_implied(doc, ctx):
     def fn(s):
         if s.get("exclusiveMaximum") is True and s.get("maximum") in (0, -1, -0.000001) and s.get("type") in ("number", "integer"):
@@ -1090,6 +1108,10 @@ def rep_null_elements(doc, ctx):
                 s["items"] = [opt(x) for x in s["items"]]; ctx["changed"] = True
         if s.get("type") == "object" and isinstance(s.get("additionalProperties"), dict) and "properties" not in s:
             s["additionalProperties"] = opt(s["additionalProperties"]); ctx["changed"] = True
+        # a Map with a constrained key field is exported through patternProperties (since the F16b repair)
+        if s.get("type") == "object" and isinstance(s.get("patternProperties"), dict) and "properties" not in s \
+                and all(isinstance(x, dict) for x in s["patternProperties"].values()):
+            s["patternProperties"] = {k: opt(x) for k, x in s["patternProperties"].items()}; ctx["changed"] = True
     walk_schemas(doc, fn)
 
 
@@ -1374,8 +1396,10 @@ COMPLETE_REPAIRS = [("sign-dropped-under-explicit-bound", rep_sign),
                     ("field-wrapper-holding-None", rep_wrapper_none),
                     ("Decimal-value-serialized-as-string", rep_decimal),
                     ("bool-value-under-numeric-field", rep_bool_number),
+                    ("Enum-literals-compared-with-Python-equality", rep_enum_python_eq),
                     ("NotField-evaluated-on-serialized-form", rep_not),
                     ("OneOf-evaluated-on-serialized-form", rep_oneof),
+                    ("AllOf-evaluated-on-serialized-form", rep_allof),
                     # repaired in the library (serialize_val gives Tuple elements their item fields): tried last, so that a
                     # failure INSIDE a Tuple element is attributed to its own cause first
                     ("Tuple-elements-serialized-without-their-item-fields", rep_tuple_untyped)]
@@ -1734,9 +1758,21 @@ def rejects_alone(env, f, v):
         return True
 
 
+def python_equal_json_distinct(v):
+    """Two elements of a JSON array that JSON keeps apart but Python's == identifies (false/0, true/1)."""
+    for i, a in enumerate(v):
+        for b in v[:i]:
+            if isinstance(a, bool) != isinstance(b, bool) and isinstance(a, (bool, int, float)) \
+                    and isinstance(b, (bool, int, float)) and a == b:
+                return True
+    return False
+
+
 def deep_culprit(env, f, v, depth=0):
     """Shape of the innermost declaration(s) responsible for the rejection of v."""
     t = f["t"]
+    if f.get("uniq") and isinstance(v, list) and python_equal_json_distinct(v):
+        return "uniqueItems-compared-with-Python-equality"
     if depth < 4:
         if t == "ref" and isinstance(v, dict) and f["cls"] in env.classes and not env.wrapper_form(f["cls"]):
             ren = dict(env.renames(f["cls"]))
@@ -1760,11 +1796,43 @@ def deep_culprit(env, f, v, depth=0):
     return field_kind(f)
 
 
+def sibling_key_fallback(env, cname, v, depth=0):
+    """Does document v (for class cname) leave out the key of a renamed field f while carrying, under f's own
+    ATTRIBUTE name, the output key of a sibling (mapper {x: a, a: z}: 'a' present, 'z' absent)?  The Deserializer then
+    reads f from the sibling's key.  Searched through nested structures, arrays and maps."""
+    if depth > 4 or cname not in env.classes or not isinstance(v, dict) or env.wrapper_form(cname):
+        return False
+    ren = dict(env.renames(cname))
+    outs = {ren.get(fd["name"], fd["name"]): fd["name"] for fd in env.all_fields(cname)}
+    for fd in env.all_fields(cname):
+        f = fd["name"]
+        if ren.get(f, f) != f and ren[f] not in v and f in v and outs.get(f) not in (None, f):
+            return True
+
+    def inside(fl, x):
+        t = fl["t"]
+        if t == "ref":
+            return sibling_key_fallback(env, fl["cls"], x, depth + 1)
+        if t == "seqeach" and isinstance(x, list):
+            return any(inside(fl["item"], y) for y in x)
+        if t in ("seqpos", "tuple") and isinstance(x, list):
+            return any(inside(g, y) for g, y in zip(fl["items"], x))
+        if t == "mapkv" and isinstance(x, dict):
+            return any(inside(fl["vf"], y) for y in x.values())
+        if t in ("allof", "anyof", "oneof"):
+            return any(inside(g, x) for g in fl["fs"])
+        return False
+    return any(inside(fd["field"], v[ren.get(fd["name"], fd["name"])]) for fd in env.all_fields(cname)
+               if ren.get(fd["name"], fd["name"]) in v)
+
+
 def exact_culprit(env, doc, exn):
     """Which field of the top class makes the Deserializer reject a document its schema admits: every field is tried
     alone, in a single-field class, on its own value (descending into nested structures, arrays and maps).
     -> declaration shape(s)."""
     fields = env.all_fields(env.top)
+    if sibling_key_fallback(env, env.top, doc):
+        return "absent-renamed-field-read-under-the-output-key-of-a-sibling"
     if env.wrapper_form(env.top):
         if isinstance(doc, dict):
             return "compact-form-of-a-field-wrapper-is-an-object"
@@ -1831,7 +1899,7 @@ def run_extras(rep):
     """Constructs of the quantifier outside the Coq model (harness/c08extras.py): observed-behaviour clauses only."""
     jobs, meta = [], []
     nss = {}
-    for name, src in XT.CASES + XT.matrix_cases():
+    for name, src in XT.CASES + XT.matrix_cases() + XT.chain_cases():
         base = {"kind": "extras", "case": name, "extras_src": src, "python": XT.PRELUDE + src}
         try:
             ns, out, sers = XT.run_case(src)
@@ -1839,7 +1907,8 @@ def run_extras(rep):
             rep.finding("C08/extras/%s/case-raises/%s" % (name, E.exn_name(ex)),
                         "the classes / valid instances of case %s raise: %s" % (name, ex), base)
             continue
-        rep.count("extras:mapper-matrix" if name.startswith("mapper-matrix/") else "extras", 1, ("extras", name, out[0]))
+        rep.count("extras:mapper-matrix" if name.startswith("mapper-matrix/") else
+                  "extras:rename-chains" if name.startswith("rename-") else "extras", 1, ("extras", name, out[0]))
         nss[name] = ns
         if out[0] != "ok":
             rep.finding("C08/extras/%s/export-raises/%s" % (name, out[1]), "structure_to_schema raises %s" % out[1], base)
